@@ -42,6 +42,9 @@ def impl(case):
         out["derivative_vals"] = [safe(lambda: D(tup(y))) for y in case["ys"]]
         D2 = D.derivative(a)       # second derivative by the same token: the SKIP re-use of Slash symbols
         out["derivative2_vals"] = [safe(lambda: D2(tup(y))) for y in case["ys"][:6]]
+        # the same chain with position tags (`derivative(a, i)`): first a@0, then a@1
+        D2i = common.mk_cfg(case["cfg"], R).derivative(a, 0).derivative(a, 1)
+        out["derivative2i_vals"] = [safe(lambda: D2i(tup(y))) for y in case["ys"][:6]]
     except Exception as e:  # noqa
         out["derivative"] = {"exc": type(e).__name__, "msg": str(e)[:200]}
     try:
@@ -232,14 +235,15 @@ def run(ctx):
                         semantic.append(_viol(c, hs, "derivative", y, {"impl": v, "WN(a·y)": str(o), "a": c["a"]}))
                     else:
                         traces += 1
-                for y, v, o, ok in list(zip(c["ys"][:6], res["derivative2_vals"], d2, d2c)):
-                    evaluations += 1
-                    if isinstance(v, dict):
-                        semantic.append(_viol(c, hs, "derivative_twice", y, v))
-                    elif ok and not common.close(common.num(v), o, tol, 1e-9):
-                        semantic.append(_viol(c, hs, "derivative_twice", y, {"impl": v, "WN(a·a·y)": str(o), "a": c["a"]}))
-                    else:
-                        traces += 1
+                for dname, label in (("derivative2_vals", "derivative_twice"), ("derivative2i_vals", "derivative_twice_positions")):
+                    for y, v, o, ok in list(zip(c["ys"][:6], res.get(dname, []), d2, d2c)):
+                        evaluations += 1
+                        if isinstance(v, dict):
+                            semantic.append(_viol(c, hs, label, y, v))
+                        elif ok and not common.close(common.num(v), o, tol, 1e-9):
+                            semantic.append(_viol(c, hs, label, y, {"impl": v, "WN(a·a·y)": str(o), "a": c["a"]}))
+                        else:
+                            traces += 1
         if len(samples) < 3 and oracle and any(o not in (0, False) for o in oracle):
             samples.append({"cfg": c["cfg"], "R": R, "prefixes": c["ps"][:5], "oracle": [str(o) for o in oracle[:5]],
                             "impl_prefix_weight": (impl_res[hashseeds[0]].get(c["id"]) or {}).get("prefix_weight", [])[:5]})
